@@ -140,9 +140,12 @@ def wavFormatTag : Nat → Nat
 
 def hasFact (codec : Nat) : Bool := codec == 0x06 || codec == 0x07 || codec == 0x10 || codec == 0x11
 
-/-- the `f` of psf_binheader_writef goes through float32_le_write / float32_be_write, which leave the zeroed field untouched
-    when `fabs (in) < FLT_MIN` (zero and binary32 subnormals; before the repair of the IEEE writers: `< 1e-30`, `wrF32Old`) -/
-def wrF32 (b : Nat) : Nat := if b % 2 ^ 31 < 0x00800000 then 0 else b
+/-- the `f` of psf_binheader_writef goes through float32_le_write / float32_be_write.  Since the repair 71c426d these write the
+    binary32 bit string of every finite value (subnormals and zero included: `Sf.PeakExact.wrF32`, SfProps/C20Ieee `ieee_write_finite_f32`);
+    a PEAK value is the binary32 of a maximum of absolute values, so the field is the bit string itself.  Before 71c426d the field
+    stayed zero when `fabs (in) < FLT_MIN` (`wrF32TinyOld`), before ec5379c when `< 1e-30` (`wrF32Old`). -/
+def wrF32 (b : Nat) : Nat := b
+def wrF32TinyOld (b : Nat) : Nat := if b % 2 ^ 31 < 0x00800000 then 0 else b
 /-- 0x0DA2425F is the largest binary32 below the double 1e-30 -/
 def wrF32Old (b : Nat) : Nat := if b % 2 ^ 31 < 0x0DA24260 then 0 else b
 
